@@ -166,6 +166,8 @@ func runC10(t *kernel.Tape, opt core.Opts) *core.Outcome {
 	var faults []lnode
 	if t.PlanBool(15) {
 		faults = injectFaults(t, p, []int{0, 1}, false)
+	} else if t.PlanBool(8) {
+		injectBranchFault(t, p) // a branch condition that returns an error
 	}
 	in := M{"in": fmt.Sprintf("x%d", t.Plan(3))}
 	call := &Call{Tag: "r0", Paradigm: t.Plan(4), In: in, InCut: t.Plan(3), InPipe: t.PlanBool(50), StopAfter: -1}
@@ -331,6 +333,14 @@ func runC10(t *kernel.Tape, opt core.Opts) *core.Outcome {
 			o.Violate("C10/foreign-context", fmt.Sprintf("handler %s invoked with the context of %q", ev.Handler, ev.Tag))
 		}
 	}
+	// the run as a whole is one execution unit: one start and one end (or error), whatever
+	// happens inside and however early the run fails
+	for _, h := range handlerIDs {
+		k := hk{h, "g:top"}
+		if starts[k] != 1 || ends[k] != 1 {
+			o.Violate("C10/wrong-callback-count", fmt.Sprintf("handler %s: the run (model outcome %q) produced %d start and %d end callbacks for the graph itself", h, mr.Err, starts[k], ends[k]))
+		}
+	}
 	for k, n := range open {
 		if n != 0 && (mr.Err == ErrNone) {
 			o.Violate("C10/start-without-end", fmt.Sprintf("handler %s: %d start(s) for %s never got an end/error", k.h, n, k.name))
@@ -395,7 +405,7 @@ func init() {
 	})
 	core.Register(&core.Profile{
 		RaceQuick: 200, RaceThorough: 3000, ID: "C10", Engine: "graphsim", Quick: 2000, Thorough: 50000, ThoroughSeeds: 3, Run: runC10,
-		Rule: "each run draws a plan (all modes, nested graphs, parallel nodes), a handler supply (global handler, 0-3 graph-level handlers each in its own call option, 0-3 handlers designated to nodes or node paths), per handler what it does with stream payloads (read all, read one chunk, close at once), optionally a failing node; oracle: per handler and execution unit exactly one start-type and one end-type callback, start first, the unit's RunInfo, designated handlers only for their node, start payload = an input of that node, graph data equal to the model; handler options are built from caller slices with spare capacity and passed in a drawn order; one option may designate several targets (nested paths and top-level keys mixed) including nodes that have a handler of their own",
+		Rule: "each run draws a plan (all modes, nested graphs, parallel nodes), a handler supply (global handler, 0-3 graph-level handlers each in its own call option, 0-3 handlers designated to nodes or node paths), per handler what it does with stream payloads (read all, read one chunk, close at once), optionally a failing node; oracle: per handler and execution unit exactly one start-type and one end-type callback, start first, the unit's RunInfo, designated handlers only for their node, start payload = an input of that node, graph data equal to the model; handler options are built from caller slices with spare capacity and passed in a drawn order; one option may designate several targets (nested paths and top-level keys mixed) including nodes that have a handler of their own; faults: a failing node or a branch condition that returns an error; the graph itself gets exactly one start and one end callback whatever happens",
 		Real: graphReal, Stub: append([]string{"callback handlers (recording stubs; stream payloads read by handler tasks)"}, graphStub...),
 		Faults: []string{"handlers closing or partially reading their stream copies", "parallel nodes", "node error/panic"},
 	})
